@@ -852,6 +852,12 @@ class Referable(HasExtension, metaclass=abc.ABCMeta):
             if isinstance(var, NamespaceSet):
                 # update the elements of the NameSpaceSet
                 vars(self)[name].update_nss_from(var)
+            elif isinstance(var, ConstrainedList) and isinstance(vars(self).get(name), ConstrainedList):
+                # Keep our own list: its constraint hooks are bound to this object, whereas the hooks of the other's list
+                # check (and keep alive) the other object. The items are taken over unchecked, like every other
+                # attribute: `other` is a valid object and the attributes the constraints depend on (e.g. semantic_id
+                # for supplemental_semantic_id) may not have been updated yet.
+                vars(self)[name]._list = list(var)
             else:
                 vars(self)[name] = var  # that variable is not a NameSpaceSet, so it isn't Referable
 
